@@ -30,7 +30,20 @@ impl LatLng {
 
     #[allow(clippy::cast_possible_truncation)]
     fn write_lat_lon(output: &mut BitVec<u8, Msb0>, field: f64) -> Result<(), DekuError> {
-        let value = (field * LAT_LONG_FACTOR) as i32;
+        // round to the nearest multiple of 1e-7 (a plain cast truncates toward zero, so that
+        // e.g. a stored 21 would be read as 2.1e-6 and written back as 20)
+        let scaled = field * LAT_LONG_FACTOR;
+        let mut rounded = scaled.round();
+        if (scaled - scaled.trunc()).abs() == 0.5 {
+            // `scaled` is itself a rounded product: decide an apparent tie by the exact residual
+            let residual = field.mul_add(LAT_LONG_FACTOR, -scaled);
+            if residual > 0.0 {
+                rounded = scaled.ceil();
+            } else if residual < 0.0 {
+                rounded = scaled.floor();
+            }
+        }
+        let value = rounded as i32;
         value.write(output, ())
     }
 }
